@@ -314,6 +314,18 @@ func run(tier string, shard, nsh int, res *ev.Result) {
 				}
 			}
 		})
+		// data values (not positions): every 16-bit value as register content / as a 16-coil pattern
+		add(func(lc *local) {
+			for v := 0; v < 65536; v++ {
+				eval(Case{FC: 16, RTU: rtu, Unit: 8, TID: 0x0102, Addr: 0x20, N: 2, Pattern: "word", K: v}, res, lc)
+				eval(Case{FC: 15, RTU: rtu, Unit: 7, TID: 0x0102, Addr: 0x13, N: 16, Pattern: "word", K: v}, res, lc)
+				if v%16 == 0 || v < 300 || v > 65200 {
+					eval(Case{FC: 16, RTU: rtu, Unit: 8, TID: 0x0102, Addr: 0x20, N: 6, Pattern: "word", K: v}, res, lc)
+					eval(Case{FC: 23, RTU: rtu, Unit: 10, TID: 0x0A0B, Addr: 3, Qty: 2, WAddr: 14, N: 4, Pattern: "word", K: v}, res, lc)
+					eval(Case{FC: 15, RTU: rtu, Unit: 7, TID: 0x0102, Addr: 0x13, N: 11, Pattern: "word", K: v}, res, lc)
+				}
+			}
+		})
 		// FC16: every payload byte length 0..300 (+ wrap lengths)
 		add(func(lc *local) {
 			for n := 0; n <= 300; n++ {
